@@ -14,6 +14,9 @@ ASSUMPTIONS = ['theorem hypothesis: line bodies contain none of LF CR VT FF FS G
                'streams with raw control characters are still compared model-vs-code but are outside the theorem']
 
 
+RECV = 1024          # the size the reader loop passes to recv()
+
+
 class ScriptSock:
     def __init__(self, chunks, rm_box, log):
         self.chunks = list(chunks)
@@ -31,6 +34,8 @@ class ScriptSock:
                 # an empty recv means EOF to the code under test; the harness never
                 # delivers empty chunks mid-stream (they are dropped by the caller)
                 raise AssertionError('empty chunk')
+            if len(c) > n:
+                raise AssertionError('chunk longer than the recv() size %d: the caller must pre-split' % n)
             return c
         fixture.find_stop_event(self.rm_box[0]).set()
         return b''
@@ -81,6 +86,10 @@ def segmentations(stream, rng, tier):
     if n <= maxlen3:
         for i, j, k in itertools.combinations(range(1, n), 3):
             segs.append([stream[:i], stream[i:j], stream[j:k], stream[k:]])
+    if n > RECV:
+        for size in (RECV, RECV - 1, RECV // 2, 1000):
+            segs.append([stream[i:i + size] for i in range(0, n, size)])
+        segs.append([stream[:RECV], stream[RECV:RECV + 1], stream[RECV + 1:]])
     for _ in range(10 if tier == 'quick' else 200):
         cuts = sorted(set(rng.randint(1, max(1, n - 1)) for _ in range(rng.randint(1, 12))))
         prev = 0
@@ -111,6 +120,13 @@ def run(ctx, res):
             lines.append(wire.encode_line(g.rid(), meth, q, rng.choice([b'\r\n', b'\n'])))
         tail = rng.choice([b'', b'12|SUB|S|it', b'9|NSC|S|x\r'])
         streams.append((lines, tail, True))
+    # long streams: reads that fill the recv() buffer exactly (cuts at multiples of RECV), one byte less, and arbitrary
+    for _ in range(2 if ctx.tier == 'quick' else 12):
+        lines = []
+        while sum(len(l) for l in lines) < 3 * RECV + rng.randint(0, 700):
+            meth = rng.choice(wire.REQUEST_METHODS)
+            lines.append(wire.encode_line(g.rid(), meth, g.request(meth), rng.choice([b'\r\n', b'\n'])))
+        streams.append((lines, rng.choice([b'', b'12|SUB|S|it']), True))
     # short hand-made streams for the exhaustive 3-cut enumeration
     streams.append(([b'1|A|S|x\r\n', b'2|B\n'], b'3|C\r', True))
     streams.append(([b'a\n', b'\r\n', b'b|c\r\n'], b'', True))
@@ -123,6 +139,7 @@ def run(ctx, res):
         stream = b''.join(lines) + tail
         for seg in segmentations(stream, rng, ctx.tier):
             seg = [c for c in seg if c] + [b'\n']
+            seg = [c[i:i + RECV] for c in seg for i in range(0, len(c), RECV)]      # a read returns at most RECV bytes
             metas.append((lines, tail, wf, seg))
             calls.append([sym('feed_trace'), b'', seg])
     outs = ctx.model(calls)
@@ -174,6 +191,23 @@ def run(ctx, res):
             if not ok:
                 res.oracle_violations.append({'case': case, 'detail': 'dispatched %r, expected lines %r' % (per, want),
                                               'key': {'stage': 'framing'}})
+    # connections one after the other in the same process: what a connection still held (an unterminated line when it
+    # ended) never shows up on the next connection
+    for i in range(20 if ctx.tier == 'quick' else 300):
+        la = [wire.encode_line(g.rid(), 'NSC', ('WNSC', 's%d' % i), b'\r\n')]
+        partial = rng.choice([b'77|SUB|S|left', b'8|NUS|S|u|S', b'x'])
+        run_impl([b''.join(la) + partial])              # ends at EOF holding `partial`
+        lb = [wire.encode_line(g.rid(), 'USB', ('WItem', 'i%d' % i), rng.choice([b'\r\n', b'\n'])) for _ in range(rng.randint(1, 3))]
+        sb = b''.join(lb)
+        cut = rng.randint(1, len(sb) - 1)
+        per, exc = run_impl([sb[:cut], sb[cut:]])
+        res.evaluations += 1
+        res.count('connection-sequence')
+        flat = [l for c in per for l in c]
+        if flat != lb or exc:
+            res.oracle_violations.append({'case': {'previous_connection': [b''.join(la) + partial], 'chunks': [sb[:cut], sb[cut:]]},
+                                          'detail': 'after a connection that ended holding %r, the next connection dispatched %r, expected %r' % (partial, flat, lb),
+                                          'key': {'stage': 'connection-sequence'}})
     res.exhaustive = True
     res.exhaustive_note = 'for every generated stream within the length limits all placements of 1 and 2 cut points (3 for streams <= 26 bytes in quick, 60 in thorough) are enumerated'
 
@@ -183,8 +217,12 @@ def search(ctx, res):
 
 
 def replay(ctx, data):
+    def raw(cs):
+        return [bytes.fromhex(c[4:]) if c.startswith('hex:') else c.encode('latin-1') for c in cs]
+    if data['case'].get('previous_connection'):
+        run_impl(raw(data['case']['previous_connection']))
     chunks = data['case']['chunks']
-    seg = [bytes.fromhex(c[4:]) if c.startswith('hex:') else c.encode('latin-1') for c in chunks]
+    seg = raw(chunks)
     per, exc = run_impl(seg)
     stream = b''.join(seg)
     want = [l + b'\n' for l in stream.split(b'\n')[:-1]]
